@@ -30,6 +30,31 @@ func drawC05b(t *rapid.T) *dScenario {
 	k.WhenEmptyPct = 10
 	k.MaxSteps = 7
 	k.EarlyPct = 22
+	if dpct(t, 35, "consolidationProfile") {
+		// worlds in which (multi-node) consolidation finds work under reason-scoped budgets, and the pool's headroom
+		// shrinks while the command waits out its validation period (a node goes NotReady, a NodeClaim is deleted):
+		// the re-check must count against the budgets of the command's own reason
+		k.BlockerPct, k.StaticPct, k.DriftPct, k.NeverPct, k.WhenEmptyPct, k.EmptyNodePct, k.EarlyPct = 3, 3, 4, 2, 6, 8, 8
+		k.Sched.MaxNodes, k.MinNodes, k.FillerPct, k.BigPodPct = 9, 4, 45, 8
+		k.MidWaitPct = 75
+		k.MidWaitKinds = []string{"nodeNotReady", "nodeNotReady", "claimDelete", "claimDelete", "nodeAnnotate", "podDelete"}
+		s := drawDisrupt(t, k)
+		// reason-scoped budgets that are tight for consolidation and loose for the other reasons (or the other way round)
+		for i, np := range s.World.Pools {
+			tight := fmt.Sprint(rapid.IntRange(1, 3).Draw(t, fmt.Sprintf("c05b_tight%d", i)))
+			reasons := [][]string{{"Underutilized"}, {"Empty", "Drifted"}}
+			if dpct(t, 25, fmt.Sprintf("c05b_swap%d", i)) {
+				reasons = [][]string{{"Empty", "Drifted"}, {"Underutilized"}}
+			}
+			bs := []ref.BudgetSpec{{Nodes: tight, Reasons: reasons[0]}, {Nodes: "100%", Reasons: reasons[1]}}
+			s.Budgets[np.Name] = bs
+			np.Spec.Disruption.Budgets = nil
+			for _, b := range bs {
+				np.Spec.Disruption.Budgets = append(np.Spec.Disruption.Budgets, toBudget(b))
+			}
+		}
+		return s
+	}
 	return drawDisrupt(t, k)
 }
 
